@@ -652,6 +652,7 @@ class AEval(dtable.Eval):
         if p in ("format", "format_ident") and "args" in e and e["args"]:
             f = self.ex(e["args"][0], env)
             vals = [self.ex(a, env) for a in e["args"][1:]]
+            vals = [("float", v[1][6:]) if v[0] == "atom" and v[1].startswith("float:") else v for v in vals]      # an f64: `{}` and `{:?}` print it differently
             vals = [("str", self.tokens_of(v)) if v[0] in ("tok", "atom") else v for v in vals]
             vals = [("str", "true" if v[1] else "false") if v[0] == "bool" else v for v in vals]
             if getattr(self, "display", None) is not None:
@@ -1561,7 +1562,8 @@ class AEval(dtable.Eval):
             fin = x not in ("inf", "-inf", "nan")
             return B({"is_finite": fin, "is_nan": x == "nan", "is_infinite": x in ("inf", "-inf")}[m])
         if m == "to_string" and not args and r[0] == "ctor" and getattr(self, "display", None) is not None and m not in self.funcs:
-            return self.display(r)
+            d_ = self.display(r)
+            return ("str", dtable.render([("fmt", ("str", "{}"), (d_,))])) if d_[0] == "float" else d_
         if m == "to_string" and not args and r[0] in ("int", "bool"):
             return ("str", str(r[1]) if r[0] == "int" else ("true" if r[1] else "false"))
         if r[0] == "atom" and m in ("clone", "to_owned", "as_ref", "as_mut", "borrow", "borrow_mut", "deref", "into", "cloned", "copied") and not args:
